@@ -7,11 +7,12 @@
 //! pipeline does: those of the library's own `DSets::new(2, n)` untouched, and every labelled
 //! connected complete 2D D-set of the harness' own enumeration (`dsgen::dsets`) converted by
 //! `SimpleDSet::from(PartialDSet)`.
+use rust_dsymbols::covers::finite_universal_cover;
 use rust_dsymbols::delaney2d::{curvature, orbifold_symbol};
 use rust_dsymbols::dsets::{DSet, SimpleDSet};
 use rust_dsymbols::generators::dset_generators::DSets;
 use rust_dsymbols::generators::dsym_generators::{DSyms, Geometries};
-use verif_harness::dsgen::{dsets, random_perm1, Tab};
+use verif_harness::dsgen::{all_vs, dsets, random_perm1, Tab};
 use verif_harness::Ctx;
 
 fn geom(k: usize) -> Geometries {
@@ -61,6 +62,14 @@ fn all_geoms(ctx: &mut Ctx, ds: &SimpleDSet, t: &Tab, src: &str) {
     }
 }
 
+/// the D-set of the finite universal cover of the spherical symbol `s`, as a SimpleDSet
+fn big_case(ctx: &mut Ctx, s: &Tab) {
+    let cov = finite_universal_cover(&s.to_partial_dsym());
+    let t = Tab::from_dset(&cov);
+    let ds: SimpleDSet = t.to_partial_dset().into();
+    all_geoms(ctx, &ds, &t, "flags");
+}
+
 fn main() {
     let mut ctx = Ctx::from_args();
     let th = ctx.thorough();
@@ -88,6 +97,36 @@ fn main() {
                 let t2 = t.renumbered(&p);
                 let ds2: SimpleDSet = t2.to_partial_dset().into();
                 all_geoms(&mut ctx, &ds2, &t2, "relabelled");
+            }
+        }
+    }
+    // (3) full flag sets of spherical tilings: the D-set of the finite universal cover of a small
+    //     spherical symbol.  Only there does a symbol with trivial symmetry group exist (all v = 1,
+    //     curvature exactly 4, the upper end of the spherical window).
+    //     one chamber: (v01, v12); two chambers: index of the D-set among dsets(2,2) and its v's
+    let one: &[(usize, usize)] = if th { &[(3, 3), (3, 4), (4, 3), (3, 5)] } else { &[(3, 3), (4, 3)] };
+    for &(a, b) in one {
+        let t1 = dsets(2, 1, true, true, false).remove(0);
+        let mut s = all_vs(&t1, &[a]).remove(0);
+        s.set_v_orbit(1, 1, b);
+        big_case(&mut ctx, &s);
+    }
+    if th {
+        // 2-chamber spherical symbols: every D-set of size 2 with the smallest admissible v's,
+        // kept when the universal cover is finite and small
+        for t2 in dsets(2, 2, true, true, false) {
+            let mut s = t2.clone();
+            for i in 0..2 {
+                for d in t2.orbit_reps2(i) {
+                    let r = t2.r(i, i + 1, d);
+                    s.set_v_orbit(i, d, if r == 1 { 3 } else { 2 });
+                }
+            }
+            let sym = s.to_partial_dsym();
+            let k = curvature(&sym);
+            // curvature 4/N for a cover with N sheets: keep covers of 24..=48 flags
+            if *k.numer() > 0 && (8 * k.denom() / k.numer()) as usize >= 24 && (8 * k.denom() / k.numer()) as usize <= 48 {
+                big_case(&mut ctx, &s);
             }
         }
     }
